@@ -53,6 +53,10 @@ def build(cells, route: str, literal: bool, d, pkg: str):
             other = next(x for x in OTHER[k] if json.dumps(x) != json.dumps(VAL[v]))
             schemas[cls + "Base"] = {"type": "object", "properties": {"p": {"default": other} if route == "allofover" else dict(KIND[k], default=other)}}
             schemas[cls] = {"allOf": [{"$ref": f"#/components/schemas/{cls}Base"}, {"type": "object", "properties": {"p": cell_schema(k, v, "direct")}}]}
+        elif route.startswith("over:"):
+            # the base declares ANOTHER declaration of the same property class (a const with another value, a union with other members)
+            schemas[cls + "Base"] = {"type": "object", "properties": {"p": KIND[route[5:]]}}
+            schemas[cls] = {"allOf": [{"$ref": f"#/components/schemas/{cls}Base"}, {"type": "object", "properties": {"p": cell_schema(k, v, "direct")}}]}
         elif route == "allof":
             schemas[cls + "Base"] = {"type": "object", "properties": {"p": KIND[k]}}
             schemas[cls] = {"allOf": [{"$ref": f"#/components/schemas/{cls}Base"}, {"type": "object", "properties": {"p": cell_schema(k, v, "direct")}}]}
@@ -87,7 +91,7 @@ def judge(rep, cells, table, route, literal, doc, g, cases, out, snap_text: str,
             if isinstance(a, (int, float)) and isinstance(b, (int, float)) and not isinstance(a, bool) and not isinstance(b, bool):
                 return a == b
             return json.dumps(a) == json.dumps(b)
-        if route == "direct" and (real != pred or (real == "val" and m["out"][2] in VAL and not _same(enc, VAL[m["out"][2]]))):
+        if (route == "direct" or route.startswith("over:")) and (real != pred or (real == "val" and m["out"][2] in VAL and not _same(enc, VAL[m["out"][2]]))):
             rep.drifted(mode="convert", k=k, v=v, literal=literal, model=m["out"], real=[real, ctor.get("py"), enc])
         if route == "direct":
             trace.append({"tid": len(trace) + 1, "k": k, "v": v, "real": real, "enc_is_v": real == "val" and json.dumps(enc) == json.dumps(VAL[v])})
@@ -170,7 +174,7 @@ def run(rep) -> None:
     quick = rep.tier == "quick"
     d = scratch("c13-")
     try:
-        cfg = tlc.write_cfg(d / "conv.cfg", {}, ["Emit", "LawD1", "LawD2"])
+        cfg = tlc.write_cfg(d / "conv.cfg", {}, ["Emit", "LawD1", "LawD2", "LawD3"])
         res = tlc.run_tlc("ConvertMC.tla", cfg, workers=1, extra=["-continue"])
         rep.tlc(res)
         table = {(p["k"], p["v"]): p for p in res.printed}
@@ -187,6 +191,16 @@ def run(rep) -> None:
                  ("allof", False, [c for c in table if c[0] in ("enums", "enumi", "string", "int", "float", "bool", "date", "datetime", "uuid")], "an"),
                  ("allofover", False, [c for c in table if c[0] in OTHER and table[c]["well"]], "ao"),
                  ("allofover2", False, [c for c in table if c[0] in OTHER and table[c]["well"]], "ap")]
+        rep.extra["D3_refuted_on_model"] = sorted(x for x in res.violated if x == "LawD3")
+        # an allOf override inside one property class (Convert.tla: SameClass, ConvertOver, D3): the table per base kind
+        over = {}
+        for p in res.printed:
+            for o in p["over"]:
+                over.setdefault(o["kp"], {})[(p["k"], p["v"])] = {"out": o["out"], "well": False, "ill": o["ill"], "k": p["k"], "v": p["v"]}
+        overtables = {}
+        for n, (kp, t) in enumerate(sorted(over.items())):
+            plans.append((f"over:{kp}", False, list(t), f"ov{n}"))
+            overtables[f"over:{kp}"] = t
         for route, literal, cells, pkg in plans:
             cells = [c for c in cells if c[1] != "null"]
             doc, g, cases = build(cells, route, literal, d, pkg)
@@ -197,7 +211,7 @@ def run(rep) -> None:
             if "__crash__" in out:
                 rep.violate(f"C13/generated-package-broken/{route}{'/literal' if literal else ''}", "package with defaults does not import: " + out["__crash__"][-500:])
                 continue
-            mapped = {(k if not (route != "allof" and False) else k, v): table[(k, v)] for k, v in cells}
+            mapped = {(k, v): overtables.get(route, table)[(k, v)] for k, v in cells}
             if route != "direct":
                 # through a reference / allOf override the outcome classes are the same table (re-conversion against the referenced / merged type)
                 pass
